@@ -99,6 +99,10 @@ def run(ctx):
         for d in ("AllocBeforeComplete", "NoCompleteCheck", "CompleteIgnoresBias", "UncheckedKvLen"):
             if vlib.run_tlc(ctx, "wire", "Malformed", "Malformed_defect_%s.cfg" % d, expect_ok=False)["ok"]:
                 raise vlib.Inconclusive("Malformed model does not reject defect " + d)
+        # 2^32-1 goes last: a decoder seen to allocate from a 16 MiB length is not given 4 GiB
+        lines = open(cases).read().splitlines()
+        lines.sort(key=lambda ln: '"mut":"max"' in ln)
+        open(cases, "w").write("\n".join(lines) + "\n")
         binary = binary or vlib.go_build("c08")
         trace = os.path.join(ctx.tmp, "xdec.ndjson")
         run_restartable(ctx, binary, "xdec", cases, trace, ["-rand", "3000" if q else "100000"], timeout=1500)
@@ -145,7 +149,7 @@ def run(ctx):
             m = re.search(r"^(panic: .*|fatal error: .*)$", logtxt, re.M)
             if not m:
                 raise vlib.Inconclusive("e2e driver ended without verdict events:\n" + logtxt[-2000:])
-            where = re.search(r"^(mosn\.io/mosn/pkg/[^\s(]+)", logtxt[m.start():], re.M)
+            where = re.search(r"^(mosn\.io/mosn/pkg/\S+)\([^()]*\)$", logtxt[m.start():], re.M)
             sent = [e for e in evs if e["ev"] == "poison"]
             seen = set(e["c"] for e in evs if e["ev"] == "seen")
             vlib.report_failure(ctx, "C08:e2e:process-crashed:%s" % (where.group(1) if where else "unknown"),
@@ -180,7 +184,7 @@ def run(ctx):
                        "corruptions of valid frames, 3 Decode calls each; h2: every <frame type, flags, stream 0/1, length field "
                        "(true, +-1, 0..8, max read size, +1, 2^24-1), pad length, cut> and every HEADERS/CONTINUATION sequence of the "
                        "menu x cut = one case = 4 real ReadFrame calls; hpack: every sequence of <= 2 of 10 representations x every "
-                       "prefix = one case = 4 real Write+Close; e2e: every poison of the menu of Containment.tla (26: bolt, dubbo-thrift, "
+                       "prefix = one case = 4 real Write+Close; e2e: every poison of the menu of Containment.tla (27: bolt, a panicking codec plug-in, dubbo-thrift, "
                        "HTTP/1, HTTP/2; downstream and upstream side) on its own connection of a real MOSN next to probe connections")
     ctx.cov["exhaustive"] = True
     ctx.assumptions += ["decoders are called as the stream layer calls them (fresh buffer-pool context, IoBuffer over the received bytes)",
